@@ -233,6 +233,7 @@ type runner struct {
 	procs       int
 	harness     []string
 	witnessSeen []string
+	notes       []string
 }
 
 func childEnv(home string, variant string) []string {
@@ -255,45 +256,64 @@ func childEnv(home string, variant string) []string {
 
 var raceHdr = regexp.MustCompile(`(?m)^WARNING: DATA RACE`)
 
-// parseRaces extracts race reports whose two top frames are goom (not harness) frames.
+// parseRaces splits race reports into goom races and harness races. The frame that performed
+// each of the two accesses (the first frame of each stack) decides: if it is harness code
+// (verifsim) the report is a harness bug; otherwise (goom code, or runtime / reflect code acting on
+// memory goom handed to it) the report is goom's, provided a goom frame appears in the report.
 func parseRaces(stderr string) (goom []string, harness []string) {
 	parts := strings.Split(stderr, "==================")
 	for _, p := range parts {
 		if !raceHdr.MatchString(p) {
 			continue
 		}
-		// top frame of each of the two stacks: the line after "Write at"/"Read at"/"Previous ..."
 		lines := strings.Split(p, "\n")
 		var tops []string
 		for i, l := range lines {
 			t := strings.TrimSpace(l)
 			if strings.HasPrefix(t, "Write at") || strings.HasPrefix(t, "Read at") || strings.HasPrefix(t, "Previous write at") ||
 				strings.HasPrefix(t, "Previous read at") || strings.HasPrefix(t, "Atomic") || strings.HasPrefix(t, "Previous atomic") {
-				// first non-runtime frame below
 				for j := i + 1; j < len(lines); j++ {
 					f := strings.TrimSpace(lines[j])
 					if f == "" {
 						break
 					}
-					if strings.HasPrefix(f, "/") || strings.HasPrefix(f, "runtime.") || strings.HasPrefix(f, "sync.") || strings.HasPrefix(f, "sync/atomic.") || strings.HasPrefix(f, "reflect.") || strings.HasPrefix(f, "internal/") {
-						continue
+					if strings.HasPrefix(f, "/") {
+						continue // file:line of the previous frame
 					}
 					tops = append(tops, f)
 					break
 				}
 			}
 		}
-		isGoom := func(f string) bool {
-			return strings.HasPrefix(f, "github.com/tencent/goom") && !strings.HasPrefix(f, "github.com/tencent/goom/verifsim")
+		isHarness := func(f string) bool { return strings.HasPrefix(f, "github.com/tencent/goom/verifsim") }
+		hasGoom := false
+		for _, f := range frameRe.FindAllString(p, -1) {
+			if !strings.Contains(f, "verifsim") {
+				hasGoom = true
+			}
 		}
-		if len(tops) >= 2 && isGoom(tops[0]) && isGoom(tops[1]) {
+		harnessTop := false
+		for _, f := range tops {
+			if isHarness(f) {
+				harnessTop = true
+			}
+		}
+		switch {
+		case len(tops) >= 2 && !harnessTop && hasGoom:
 			goom = append(goom, strings.TrimSpace(p))
-		} else {
+		case !harnessTop && !hasGoom:
+			// both accesses inside the standard library (e.g. fmt's pooled printers reused by two
+			// harness tasks) and no goom frame anywhere: an artefact of the baton being invisible
+			// to the detector, neither a goom race nor harness state; counted, not reported
+			stdlibOnlyReports++
+		default:
 			harness = append(harness, strings.TrimSpace(p))
 		}
 	}
 	return
 }
+
+var stdlibOnlyReports int
 
 var procSeq int
 var procMu sync.Mutex
@@ -454,7 +474,20 @@ func (r *runner) runJob(j job, sample int) {
 			r.results = append(r.results, x)
 		}
 		if len(harnRaces) > 0 {
-			r.harness = append(r.harness, "race report with harness frames on top:\n"+harnRaces[0])
+			violated := false
+			for _, x := range res {
+				if x.Verdict == "violation" {
+					violated = true
+				}
+			}
+			if violated || crashed != nil || len(goomRaces) > 0 {
+				// the same process also shows a genuine violation: tasks that run into each other's
+				// mocks touch harness state in ways a correct goom never causes; the violation is
+				// what gets reported, the harness report is kept as a note
+				r.notes = append(r.notes, "harness-level race report next to a violation (not counted as harness trouble)")
+			} else {
+				r.harness = append(r.harness, "race report with harness frames on top:\n"+harnRaces[0])
+			}
 		}
 		r.mu.Unlock()
 		last := s
@@ -1024,10 +1057,21 @@ type evidence struct {
 }
 
 func finish(r *runner, prop, tier string, seed uint64, cfg propCfg, known []knownFinding, t0 time.Time) int {
-	if len(r.harness) > 0 {
+	harnessTrouble := len(r.harness) > 0
+	if harnessTrouble {
+		anyViolation := false
+		for _, x := range r.results {
+			if x.Verdict == "violation" {
+				anyViolation = true
+			}
+		}
 		fmt.Fprintf(os.Stderr, "vcheck: HARNESS TROUBLE (%d):\n%s\n", len(r.harness), r.harness[0])
-		writeEvidence(r, prop, tier, seed, cfg, t0, 0, nil, []string{"harness trouble: run is inconclusive"})
-		return 2
+		if !anyViolation {
+			writeEvidence(r, prop, tier, seed, cfg, t0, 0, nil, []string{"harness trouble: run is inconclusive"})
+			return 2
+		}
+		// violations found by other children are still confirmed and reported below; the run as a
+		// whole stays flagged (exit 2 unless a VIOLATION line is printed)
 	}
 	if len(cfg.EnvVar) > 0 {
 		plainTrans := map[uint64]*result{}
@@ -1218,6 +1262,9 @@ func finish(r *runner, prop, tier string, seed uint64, cfg propCfg, known []know
 				}
 			}
 		}
+	}
+	if harnessTrouble && exit == 0 {
+		exit = 2
 	}
 	writeEvidence(r, prop, tier, seed, cfg, t0, len(viol), knownSeen, nil)
 	fmt.Printf("vcheck: %s %s: %d ok, %d violation(s) in %d class(es), %d truncated, %d child processes, %.1fs\n", prop, tier, okN, len(viol), len(sigs), trunc, r.procs, time.Since(t0).Seconds())
